@@ -514,12 +514,15 @@ func init() {
 	reg("strconv.Itoa", func(in *Interp, fn *ssa.Function, args []Value) Value {
 		t := tt(args[0])
 		if !t.IsConst() {
-			return in.opaqueString("strconv.Itoa")
+			return in.decimalString(t, "strconv.Itoa")
 		}
 		return StrOf(strconv.FormatInt(t.SignedVal(), 10))
 	})
 	reg("strconv.FormatInt", func(in *Interp, fn *ssa.Function, args []Value) Value {
 		t, b := tt(args[0]), tt(args[1])
+		if !t.IsConst() && b.IsConst() && b.U == 10 {
+			return in.decimalString(t, "strconv.FormatInt")
+		}
 		if !t.IsConst() || !b.IsConst() {
 			return in.opaqueString("strconv.FormatInt")
 		}
